@@ -82,7 +82,7 @@ def gen_case(rng, tier):
     ops = []
     ph = 1                      # provider height
     chh = [1] * nc              # consumer heights
-    taxes = [0, P // 50, P // 50, P // 10, P, rng.randint(0, P), 333333333333333333]
+    taxes = [0, P // 50, P // 50, P // 10, P, rng.randint(0, P), 333333333333333333, 1, 2, P - 1]
 
     def valset(c, direct=True):
         vs = rng.sample(range(nv), rng.randint(0, nv))
@@ -188,6 +188,13 @@ def fixed_cases():
            "chains": [{"frac": P // 4, "bpdt": 1, "rd": [0], "prd": [2], "memo": 0, "to_pool": 1}],
            "ops": [[8, 0, []], [1, 0, 1000], [2, 0, 0, 1000 * P], [4, 5, P // 50, st, 0, [], [0], []],
                    [4, 6, P // 50, st, 0, [], [], []]]}
+    # rounding boundary of validatorsRewards = credit x (1 - tax): (1 + 10^-18) x (1 - 10^-18) = 1 - 10^-36 must truncate to 0 coins
+    for a, tax, extra in ((1, 1, 1), (7, 1, 7), (3, 2, 6), (5, 3, 15)):
+        yield {"nc": 1, "nv": 3, "cons": [[1, 1, 1, 1]],
+               "prov": {"epochs": 1, "bpe": 1, "registered": [0], "minrate": 0},
+               "chains": [{"frac": P // 4, "bpdt": 1, "rd": [0], "prd": [2], "memo": 0, "to_pool": 1}],
+               "ops": [[8, 0, [[0, 1, 0]]], [1, 0, a], [2, 0, 0, a * P + extra], [4, 5, tax, st, 0, [], [], []],
+                       [4, 6, tax, st, 0, [], [], []]]}
     # end to end: consumer block, transmission, relay, payout
     yield {"nc": 1, "nv": 3, "cons": [[1, 1, 1, 1]],
            "prov": {"epochs": 1, "bpe": 2, "registered": [10], "minrate": 0},
@@ -239,7 +246,8 @@ CLAUSES = {
     5: "more coins entered the distribution account than credit was consumed",
     6: "coins leaving the rewards pool differ from coins entering the distribution account",
     7: "a credit grew in BeginBlock, became negative, or was consumed for a denom that is neither registered nor allowlisted / a consumer without client",
-    8: "a validator's reward or commission differs from the coded share of the consumers in whose stored set it is eligible",
+    8: "a validator's reward or commission differs from the coded share (floor(power*10^18/eligible power) x coins moved, per-consumer commission) of the consumers in whose stored set it is eligible",
+    17: "a validator received rewards in a denom although it is not eligible (not in the stored set / joined too recently) in any consumer whose credit was consumed, or commission exceeds reward",
     9: "a receive credited the wrong consumer/denom/amount (or credited despite a failed acknowledgement / foreign receiver)",
     10: "a receive changed validator rewards or the community pool",
     11: "consumer split is not floor(fees x fraction) / rest, or coins were created or lost on the consumer",
